@@ -7,7 +7,7 @@ E1_NOTE = ("trusted: rustc, the reference bit-slice decoder (DESIGN.md App. A la
            "vectors), the structural assumption that readers are fixed-width and dispatch depends on DF/TC/subtype/BDS id only (probed by bit-walks)")
 
 CLAIMS = {
- "C01": dict(cat="exploration", tech="exhaustive enumeration (all byte strings of length 0..=3, 32 DF x lengths x contexts x bit-walk, the union lattice of C02-C11, all ordered pairs of a CPR report alphabet, 3-frame tracker histories x receiver/range alphabet) with every operation under catch_unwind, an allocation meter and a stall watchdog",
+ "C01": dict(cat="exploration", tech="exhaustive enumeration (all byte strings of length 0..=3, 32 DF x lengths x contexts x bit-walk, the union lattice of C02-C11, all ordered pairs of a CPR report alphabet, 3-frame tracker histories x receiver/range alphabet) with every operation under catch_unwind, an allocation meter and a stall watchdog; log arguments evaluated (tracing subscriber enabling every level); receiver at the exact antipode of / at 1200 decoded positions",
              text="totality monitor over the union of all decoder lattices plus the complete space of short byte strings; panics, stalls and allocation above 4 KiB per decode are violations", ref="3 C01", note=E1_NOTE + "; the global-allocator meter counts bytes requested per decode on the calling thread"),
  "C02": dict(cat="exploration", tech="exhaustive enumeration of 32 DF codes x buffer lengths 0..=32 x contexts x garbage tails and of every dispatch leaf (bit-walk, field sweeps) on the real decoder vs reference acceptance predicate; exact-vs-extended differential",
              text="acceptance set, length discipline and tail-independence decided on every format code, every length and every dispatch leaf under a context alphabet; payload bits beyond the alphabet are not enumerated", ref="3 C02", note=E1_NOTE),
@@ -36,10 +36,10 @@ CLAIMS = {
 E2_NOTE = ("trusted: stateright 0.31 (bounded DFS with the depth in the state key; cross-checked against BFS counts on every C12 run); the harness's clock_gettime interposition (self-tested each run); the reference tracker; exact haversine; "
            "depth-bounded (no fixpoint) plus periodic (lasso) histories: every word of period <= 2-3 repeated to 1200-3000 events; oracles are evaluated on every generated state inside next_state (stateright itself skips the deepest level)")
 for _pid, _ref, _txt in [
-  ("C12", "3 C12", "all histories up to depth 4 (quick) / 5 (thorough) over a 37-letter frame alphabet (2-3 addresses x payload classes, DF18 with foreign PI, eight non-ES formats): key set, Added, message counts, non-ES no-ops, record isolation checked on every reachable state; an expiry model (accounting letters x prune, one second per event) for 'the tracked set shrinks only through expiry'"),
-  ("C13", "3 C13", "all histories up to depth 4-6 (7 quick / 9 thorough on a single-aircraft sub-alphabet) of even/odd reports from a flight, range-boundary, jump-boundary (polar NL=1), garbage, second-aircraft and receiver-move letters, several receivers/ranges, 1 s and 100 s per event, polar models on the +-90 deg zone latitudes: published position, clearing, distance, the pairing itself against the independent reference decoder"),
-  ("C14", "3 C14", "same state spaces plus identification/velocity letters: latest-wins attributes, details/all_position/Display views, distance-iff-position, track = superseded publications in order"),
-  ("C15", "3 C15", "all interleavings up to depth 6 (quick) / 9 (thorough) of frames (identification, velocity, positions, unhandled types, DF18, non-ES), waits {1 ns, 0.4T, 0.6T, T-1ns, T} and prune(T), T in {0, 1, 10}: exact expiry set, untouched survivors, fresh record on re-appearance"),
+  ("C12", "3 C12", "all histories up to depth 4 (quick) / 5 (thorough) over a 37-letter frame alphabet (2-3 addresses x payload classes, DF18 with foreign PI, eight non-ES formats): key set, Added, message counts, non-ES no-ops, record isolation checked on every reachable state; an expiry model (accounting letters x prune, one second per event) for 'the tracked set shrinks only through expiry'; a model over all 32 type codes from address 000000 and a1"),
+  ("C13", "3 C13", "all histories up to depth 4-6 (7 quick / 9 thorough on a single-aircraft sub-alphabet) of even/odd reports from a flight, range-boundary, jump-boundary (polar NL=1), garbage, second-aircraft and receiver-move letters, several receivers/ranges, 1 s and 100 s per event, polar models on the +-90 deg zone latitudes, every carrier (DF17 / DF18 x barometric / GNSS height), pairs 20 m on either side of every NL transition: published position, clearing, distance, the pairing itself against the independent reference decoder"),
+  ("C14", "3 C14", "same state spaces plus identification/velocity letters: latest-wins attributes, details/all_position/Display views, distance-iff-position, track = superseded publications in order (periodic histories with > 1100 required entries); altitude codes incl. 0 ft"),
+  ("C15", "3 C15", "all interleavings up to depth 6 (quick) / 9 (thorough) of frames (identification, velocity, positions, unhandled types, DF18, non-ES), waits {1 ns, 0.4T, 0.6T, T-1ns, T} and prune(T), T in {0, 1, 10} and prune(u64::MAX): exact expiry set, untouched survivors, fresh record on re-appearance"),
 ]:
     CLAIMS[_pid] = dict(cat="model_checking", engine="E2-tracker",
         tech="explicit-state model checking (stateright bounded DFS, depth in the state key) of the real Airplanes::action/prune, one event per transition under a virtual clock, against a reference tracker; every transition executes the implementation; plus exhaustive enumeration of periodic histories (all words up to period 2-3, repeated to 1200-3000 events)",
@@ -50,20 +50,20 @@ CLAIMS["C19"] = dict(cat="fault_enumeration", engine="E3-reader",
     text="every distinct read/seek pattern of the decoder under every placement of transient errors (all 2^R subsets in the thorough tier) and every short-read split; purity over all ordered triples", ref="3 C19",
     note="trusted: the scripted reader obeys the Read/Seek contracts; std build only (std::io read_exact/read_to_end retry semantics)")
 CLAIMS["C20"] = dict(cat="exploration", engine="E1-lattice",
-    tech="exhaustive differential enumeration: one fixed case list (E1 lattice, CPR lattice, all tracker histories to depth 3/4) rendered by the same code compiled against std+serde, std and alloc-only builds of the subject, compared record by record; serde_json + CBOR round trip of every decoded frame and tracker state",
+    tech="exhaustive differential enumeration: one fixed case list (E1 lattice, CPR lattice, all tracker histories to depth 3/4) rendered by the same code compiled against std+serde, std and alloc-only builds of the subject, compared record by record; CPR pairs on the rounding ties of the zone indices, 600-event periodic histories; serde_json + CBOR round trip of every decoded frame and tracker state",
     text="2.1 M records per configuration compared exactly; every decoded frame of the lattice and every history's tracker state round-tripped through two serde formats", ref="3 C20",
     note="trusted: rustc/cargo feature resolution (separate cargo invocations per feature set); std-only timestamps excluded; the case list, not all inputs")
 
 E4_NOTE = ("trusted: the pty/TCP driver (causal synchronisation on /proc io counters, TIOCOUTQ and ratatui's per-draw cursor-hide heartbeat; no verdict on a bare sleep except the 250 ms gap class and the 1.6 s expiry wait with guard bands), the VT screen model, "
            "the helper `vh feed2table` (real decoder + real tracker) as the table oracle; every violating script is replayed twice before it is reported, disagreeing replays are machinery errors")
 CLAIMS["C16"] = dict(cat="fault_enumeration", engine="E4-apps",
-    tech="exhaustive enumeration of feed schedules on the real radar and 1090 binaries: every cut position of a 3-line feed (<=1 cut quick, <=2 thorough) with a timeout gap, a malformed-line alphabet at every feed position in two timings, every disconnect point with retry on/off",
+    tech="exhaustive enumeration of feed schedules on the real radar and 1090 binaries: every cut position of a 3-line feed (<=1 cut quick, <=2 thorough) with a timeout gap, a malformed-line alphabet at every feed position in two timings, every disconnect point with retry on/off, orderly (FIN) and abortive (RST) close",
     text="all segmentations within the bound, all alphabet lines at all positions, all disconnect points; oracle = echoed payload sequence followed by the library's rendering of each frame (1090) / per-aircraft message counts vs the tracker library (radar)", ref="3 C16", note=E4_NOTE)
 CLAIMS["C17"] = dict(cat="model_checking", engine="E4-apps",
     tech="stateless bounded-depth model checking of the real radar binary under a pty: all event sequences up to depth 1-4 over the key/mouse/resize/traffic alphabet x delivery mode x terminal sizes x tracked-set contexts x option sets; CLI value alphabet",
     text="every sequence within the bound executed on the real process; oracle = alive until quit, exit 0, no panic text, termios restored, mouse reporting off, cursor shown; a quit request is honoured even while the feed is silent; invalid CLI values -> usage error", ref="3 C17", note=E4_NOTE)
 CLAIMS["C18"] = dict(cat="model_checking", engine="E4-apps",
-    tech="stateless bounded-depth model checking of the real radar binary with screen reconstruction: all view-control sequences up to depth 2 (quick) / 3 (thorough) over feeds with aircraft and locations in all four quadrants, two receivers (one next to the prime meridian), traffic arriving after the view controls",
+    tech="stateless bounded-depth model checking of the real radar binary with screen reconstruction: all view-control sequences up to depth 2 (quick) / 3 (thorough) over feeds with aircraft and locations in all four quadrants, two receivers (one next to the prime meridian), traffic arriving after the view controls, expiry with a returning address and with a silent feed",
     text="Airplanes tab cells and counters vs the real tracker library fed with the same lines (feeds of 1, 2, 3 and 21 aircraft; row capacity, columns and number of decimals read off the screen); map geometry (order, 2:1 ratio); view sequences leave the data tab cell-for-cell unchanged and reset restores the initial map", ref="3 C18", note=E4_NOTE)
 
 NOT_YET = {
